@@ -55,6 +55,9 @@ KINDS = {
     "res@/2":    {"k": "res", "addr": True, "al": 2},
     "win":       {"k": "win", "addr": False, "waw": 1, "wdw": 32, "sparse": None, "wal": 0},
     "win@":      {"k": "win", "addr": True, "waw": 2, "wdw": 32, "sparse": None, "wal": 0},
+    # a (necessarily empty) window whose OWN alignment exceeds its size and the parent's alignment: irrelevant to where
+    # the parent puts it
+    "win/wal3":  {"k": "win", "addr": False, "waw": 1, "wdw": 32, "sparse": None, "wal": 3},
     "sparse":    {"k": "win", "addr": False, "waw": 2, "wdw": 8, "sparse": True, "wal": 0},
     "dense2@":   {"k": "win", "addr": True, "waw": 2, "wdw": 16, "sparse": False, "wal": 1},
     "dense4":    {"k": "win", "addr": False, "waw": 3, "wdw": 8, "sparse": False, "wal": 2},
